@@ -40,9 +40,9 @@
   'claims':'CmapSubtable12NextCodepoint, second half of the contract (same function and preconditions as c13_next12; the safety checks are discharged there): no code point of any group lies strictly between the previous and the returned code point, and the returned key is the only group containing the returned code point, given the groups are ordered at the index pairs involved - the iteration that fills the cache skips no mapped character'}@*/
 /*@unit {'name':'c13_next12', 'props':['C13','C01'], 'entry':'h_next12', 'enforce':'CmapSubtable12NextCodepoint', 'min_loops':2, 'backend':'cadical', 'cost':100,
   'claims':'CmapSubtable12NextCodepoint on any well-formed format 12 subtable (exact-size buffer), any previous code point, any range key in [0,numGroups): reads inside the subtable, writes only *pRangeKey, both scans terminate; the new key is in [0,numGroups] and equals numGroups only together with the end marker 0x10FFFF; the returned code point lies in group key (unless that group is empty), is larger than the previous one (unless two groups overlap)'}@*/
-/*@unit {'name':'c13_step4', 'props':['C13'], 'entry':'h_step4', 'backend':'cadical', 'replace':['CmapSubtable4NextCodepoint','CmapSubtable4Lookup'],
+/*@unit {'name':'c13_step4', 'props':['C13'], 'entry':'h_step4', 'backend':'cadical', 'no_checks':['--bounds-check','--pointer-check','--div-by-zero-check','--signed-overflow-check','--undefined-shift-check','--pointer-primitive-check'], 'replace':['CmapSubtable4NextCodepoint','CmapSubtable4Lookup'],
   'claims':'per-step lemma over the contracts (format 4): for the code point c and key produced by CmapSubtable4NextCodepoint, the hinted lookup Lookup(c,key) that fills the cache equals the full lookup Lookup(c,0) of the direct path, given the segments are ordered at the index pairs involved'}@*/
-/*@unit {'name':'c13_step12', 'props':['C13'], 'entry':'h_step12', 'backend':'cadical', 'cost':100, 'replace':['CmapSubtable12NextCodepoint','CmapSubtable12Lookup'],
+/*@unit {'name':'c13_step12', 'props':['C13'], 'entry':'h_step12', 'backend':'cadical', 'cost':100, 'no_checks':['--bounds-check','--pointer-check','--div-by-zero-check','--signed-overflow-check','--undefined-shift-check','--pointer-primitive-check'], 'replace':['CmapSubtable12NextCodepoint','CmapSubtable12Lookup'],
   'claims':'per-step lemma over the contracts (format 12): Lookup(c,key) == Lookup(c,0) for the code point and key produced by CmapSubtable12NextCodepoint, given no earlier group contains c (groups ordered at the pair involved)'}@*/
 /*@unit {'name':'c13_direct', 'props':['C13'], 'entry':'h_direct', 'enforce':'DirectCmap_lookup', 'replace':['CmapSubtable4Lookup','CmapSubtable12Lookup'],
   'claims':'DirectCmap::operator[]: plane split - code points above U+FFFF are answered by the format 12 subtable (0 if the face has none), all others by the format 4 subtable; the preconditions of both lookups hold at the call sites (subtables validated by bmp_subtable/smp_subtable, key 0); nothing is written'}@*/
